@@ -45,6 +45,10 @@ Step ==
        [] r.ev = "Dec" -> /\ ~dead /\ DecOk(r) /\ UNCHANGED <<frames, mode, bad, tfed>>
        [] r.ev = "End" -> /\ (mode \in {"clean"} => r.buffered = tfed - tpos)
                           /\ UNCHANGED <<frames, mode, bad, tfed, tpos, tk, dead>>
+       \* the stream ends: nothing left over is a clean end, a truncated frame is an error - never a frame, never a panic
+       [] r.ev = "Eof" -> /\ ~dead
+                          /\ r.res = IF tfed = tpos THEN "none" ELSE "err"
+                          /\ UNCHANGED <<frames, mode, bad, tfed, tpos, tk, dead>>
        [] r.ev = "Fuzz" -> r.res \in {"value", "err"} /\ UNCHANGED <<frames, mode, bad, tfed, tpos, tk, dead>>
        [] r.ev = "RT" -> r.same /\ UNCHANGED <<frames, mode, bad, tfed, tpos, tk, dead>>
        [] r.ev = "Pinned" -> r.hex = PinnedHex(r.what) /\ UNCHANGED <<frames, mode, bad, tfed, tpos, tk, dead>>
